@@ -198,6 +198,10 @@ mut("sub_advance_back_swapped", I, """        if self.left.len() > count {
 mut("inv_size_replace_unchecked", L, """        let drop_range = len..size;
         self.size = len;""", """        let drop_range = len..size;
         let _ = core::mem::replace(&mut self.size, len + size);""", ["C04:INV1"])
+mut("term_fill_spare_with_le", L, """        while self.size < N {
+            self.push_back(f());""", """        while self.size <= N {
+            self.push_back(f());""", ["C11:TERM1"])
+mut("term_backfill_no_decrement", D, """            remaining -= copy_len;""", """            let _ = copy_len;""", ["C11:TERM1"])
 mut("eq_mut_array_self_recursion", L, """    fn eq(&self, other: &&'a mut [U; M]) -> bool {
         self == *other
     }""", """    fn eq(&self, other: &&'a mut [U; M]) -> bool {
